@@ -124,6 +124,13 @@ def run_one(sub, case, ctx, state, treedir, journal_path=None, classify=True,
                     state.first_nt.append(abbreviate(case))
             if len(state.first) < 3:
                 state.first.append(abbreviate(case))
+    # every case starts from numpy's default floating-point error handling: a case must not depend on what an
+    # earlier case in the same worker left behind (a failure has to reproduce from its replay file alone)
+    try:
+        import numpy as _np
+        _np.seterr(divide="warn", over="warn", under="ignore", invalid="warn")
+    except Exception:  # noqa: BLE001
+        pass
     try:
         sub.check(case, ctx)
     except Violation as v:
